@@ -48,6 +48,7 @@ CLAIMED["C10"] = ("R+S", "deterministic-simulation harness run free under the Go
          "race(pair): race-detector reports whose racing accesses are in library code; interleaved / wire-undecodable: the transport byte stream is a concatenation of whole, strictly decodable packets", "5 and 7/C10")
 CLAIMED["C15"] = ("S+R",) + CLAIMED["C15"][1:]
 CLAIMED["C17"] = ("S+R",) + CLAIMED["C17"][1:]
+CLAIMED["C16"] = ("S+R", CLAIMED["C16"][1] + "; plus an engine R pass in which Disconnect / Close / peer close / malformed packet of several clients race under real parallelism (callback error vs Err() at that moment and in the end, each state at most once, Done() closed)") + CLAIMED["C16"][2:]
 
 NOT_APPLICABLE = {
  "C05": "pure function of (message, options) -> bytes; quantifier is inputs/configurations only, there is no schedule, clock, fault or interleaving for a simulator to own (DESIGN 7/C05)",
@@ -72,7 +73,7 @@ def main():
        "add_only": True,
      },
      "engines": [
-       {"name": "R", "path": "/verif/sim (same module, built with -race)", "serves_properties": ["C10", "C15", "C17"], "kind_free_text": "the same simulator free-running inside a synctest bubble under the Go race detector, GOMAXPROCS=8; not schedule-replayable: replay = re-execution until the same access pair is reported (<= 20 tries)"},
+       {"name": "R", "path": "/verif/sim (same module, built with -race)", "serves_properties": ["C10", "C15", "C16", "C17"], "kind_free_text": "the same simulator free-running inside a synctest bubble under the Go race detector, GOMAXPROCS=8; not schedule-replayable: replay = re-execution until the same access pair is reported (<= 20 tries)"},
        {"name": "S", "path": "/verif/sim", "serves_properties": sorted(CLAIMED), "kind_free_text": "deterministic discrete-event simulator inside a testing/synctest bubble: scenario-as-data, one external event per quiescence, SimConn/SimDialer/Broker model, fake clock; real mqtt-go code incl. its goroutines"},
      ],
      "checks": [],
